@@ -10,8 +10,10 @@
 (* on the defined bits of the destination format; nothing outside the addressed pixels may   *)
 (* change, and source and mask are not written.                                              *)
 (* pres names the presentation of the source: 0 plain, 1 integer translation, 2 two          *)
-(* destination pixels per source pixel, 3 PAD repeat, 4 scale 1 + 1/65536: the source pixel   *)
-(* that destination pixel i sees is SrcPos (the sampling rule itself is property C08's).     *)
+(* destination pixels per source pixel, 3 PAD repeat, 4 scale 1 + 1/65536, 5 a 1x1 image with *)
+(* NORMAL repeat (solid), 6 PAD repeat with scale 1 + 1/65536; mpres 1: a 1x1 repeating mask. *)
+(* The source pixel that destination pixel i sees is SrcPos (the sampling rule itself is      *)
+(* property C08's).                                                                           *)
 EXTENDS Combine, TraceIO
 
 VARIABLES l, dest
@@ -22,7 +24,9 @@ ClampI(x, lo, hi) == IF x < lo THEN lo ELSE IF x > hi THEN hi ELSE x
 SrcPos(ev, i) ==
     CASE ev.pres \in {0, 1, 4} -> ev.sx + i
       [] ev.pres = 2 -> (ev.sx + i) \div 2
-      [] ev.pres = 3 -> ClampI(ev.sx + i, 0, ev.sw - 1)
+      [] ev.pres \in {3, 6} -> ClampI(ev.sx + i, 0, ev.sw - 1)
+      [] ev.pres = 5 -> 0
+MskPos(ev, i) == IF ev.mpres = 1 THEN 0 ELSE ev.mx + i
 
 Mode(ev) == IF ev.hasmask = 0 THEN "none" ELSE IF ev.ca = 1 THEN "ca" ELSE "unified"
 
@@ -31,7 +35,7 @@ NoMaskPx == [c \in Chan |-> CNone]
 PixelJudged(ev, fs, fm, fd, md, i) ==
     PixelOK(ev.op, md, fs, fm, fd,
             PixelCV(fs, 0, ev.src, SrcPos(ev, i)),
-            IF ev.hasmask = 1 THEN PixelCV(fm, 0, ev.msk, ev.mx + i) ELSE NoMaskPx,
+            IF ev.hasmask = 1 THEN PixelCV(fm, 0, ev.msk, MskPos(ev, i)) ELSE NoMaskPx,
             PixelCV(fd, 0, ev.before, ev.dx + i),
             PixelCV(fd, 0, ev.after, ev.dx + i))
 
